@@ -7,6 +7,10 @@ from .extract import find_item, LostAnchor, list_fns, strip_vis
 from .lexer import lex, squash
 
 
+# N10 (every unit): a fully qualified path into a stubbed dependency names the prelude's stand-in of the same item
+DEFAULT_RULES = [('N10', r'\bhibitset::(?=[A-Z])', ''), ('N10', r'\bshrev::(?=[A-Z])', '')]
+
+
 class Clause:
     def __init__(self, label, expr, props=None):
         self.label, self.expr = label, expr
@@ -214,7 +218,7 @@ def generate(unit, repo, vacuity=False, falsify=False):
         text, r = A.n2_vis(text); norms += r
         lost_hints = []
         if spec.kind == 'struct':
-            text, r = A.regex_rules(text, unit.global_rules + spec.rules); norms += r
+            text, r = A.regex_rules(text, DEFAULT_RULES + unit.global_rules + spec.rules); norms += r
             pre = ''
             if spec.derive:
                 pre += '#[derive(%s)]\n' % spec.derive
@@ -240,7 +244,7 @@ def generate(unit, repo, vacuity=False, falsify=False):
                 text, r = A.n4c_map(text); norms += r
             if spec.n16:
                 text, r = A.n16_add_assign(text); norms += r
-            text, r = A.regex_rules(text, unit.global_rules + spec.rules); norms += r
+            text, r = A.regex_rules(text, DEFAULT_RULES + unit.global_rules + spec.rules); norms += r
             text, hoisted, r = A.n14_hoist(text); norms += r
             try:
                 if spec.ret:
